@@ -72,7 +72,7 @@ func vC11GResolver() *Resolver {
 		rootServers:    &authority.Servers{Zone: "."},
 		glueV4:         internalcache.New(defaultCacheSize),
 		netTimeout:     time.Second,
-		sfGroup:        &SingleflightWrapper{}, // no cleanup goroutine: flights here live < 15 s
+		sfGroup:        &SingleflightWrapper{},                                     // no cleanup goroutine: flights here live < 15 s
 		circuitBreaker: &circuitBreaker{failures: make(map[string]*serverFailure)}, // no janitor goroutine
 	}
 }
@@ -331,6 +331,14 @@ func TestVerifC11Regroup(t *testing.T) {
 			}
 		}
 		_ = stuck
+		// an error that is neither the caller's own nor request-local can only come from the
+		// loopback exchange after the recovery (a real socket): infrastructure, not a verdict
+		wireTrouble := false
+		for _, cl := range callers {
+			if cl.class == 3 {
+				wireTrouble = true
+			}
+		}
 		for _, ev := range events {
 			switch ev.kind {
 			case 0:
@@ -342,11 +350,12 @@ func TestVerifC11Regroup(t *testing.T) {
 			}
 		}
 		b, _ := json.Marshal(map[string]any{
-			"k":          mode,
-			"coq":        fmt.Sprintf("CaseRegroup [%s] [%s] [%s]", strings.Join(cc, "; "), strings.Join(ec, "; "), strings.Join(oc, "; ")),
-			"nontrivial": failedLeaders >= 3,
-			"go_fail":    goFail,
-			"desc":       map[string]any{"mode": mode, "callers": desc, "authority_recovers_at": recoverAt, "wire_queries": wire.Load()},
+			"k":            mode,
+			"coq":          fmt.Sprintf("CaseRegroup [%s] [%s] [%s]", strings.Join(cc, "; "), strings.Join(ec, "; "), strings.Join(oc, "; ")),
+			"nontrivial":   failedLeaders >= 3,
+			"go_fail":      goFail,
+			"inconclusive": wireTrouble,
+			"desc":         map[string]any{"mode": mode, "callers": desc, "authority_recovers_at": recoverAt, "wire_queries": wire.Load()},
 		})
 		f.Write(append(b, '\n'))
 	}
